@@ -354,6 +354,30 @@ check_raw(const unsigned char *in, size_t n, int sof, int srcchunk, int sinkchun
                     ts.pos, rpos);
             return;
         }
+        /* one context may serve both directions of a link (the encoder takes it const): whatever the decoder just
+         * made of it - frame delivered, illegal sequence, input ran dry in mid-frame - an encoding produced with it
+         * now is the reference encoding, and the context is left as it was */
+        {
+            static const unsigned char pl[3][4] = { { 0x41, END, ESC, 0x42 }, { ESC_END, 0x00, 0xff, ESC_ESC }, { END, END, 0x7e, ESC } };
+            static unsigned prot;
+            const unsigned char *q = pl[prot % 3];
+            const size_t qn = 1 + prot++ % 4;
+            const RFC1055Context snap = ctx;
+            Source es;
+            Sink ek;
+            struct tsrc ets;
+            static struct tsink etk;
+            mk_source(&es, &ets, srcchunk, vh_arena_copy(q, qn), qn);
+            mk_sink(&ek, &etk, sinkchunk);
+            int erc = rfc1055_encode(&ctx, &es, &ek);
+            unsigned char eref[16];
+            size_t ern = ref_encode(sof, q, qn, eref);
+            if (erc < 0 || etk.n != ern || memcmp(etk.buf, eref, ern) != 0 || memcmp(&snap, &ctx, sizeof ctx) != 0)
+                vh_fail("encode-with-the-decoders-context", key, "input=%s, after decode call %u (rc=%d) payload=%s: rc=%d encoded=%s expected=%s%s",
+                        vh_hex(in, n), call, rc, vh_hex(q, qn), erc, vh_hex(etk.buf, etk.n), vh_hex(eref, ern),
+                        memcmp(&snap, &ctx, sizeof ctx) ? "; context changed" : "");
+            VH_COUNT("encoding with a context the decoder has been working with");
+        }
         if (rc == -ENODATA) {
             VH_COUNT("raw input: source end returned unchanged");
             return;
@@ -876,6 +900,7 @@ harness_run(void)
         vh_unit("random", i, u_random, NULL);
     vh_require("every octet value behind an escape octet as raw decoder input");
     vh_require("random octets as raw decoder input");
+    vh_require("encoding with a context the decoder has been working with");
     vh_require("chunk sink that takes only part of what it is offered");
     vh_require("two decoders interleaved call by call");
     vh_require("encoder writing into a sink that encodes what it receives (nested encoder calls)");
